@@ -350,7 +350,8 @@ class C13(Check):
         'Property.value (the comment-free serialisation of the parsed value, K4) is an INPUT of the model; its '
         'invariance under spelling and round trip is checked on the implementation only (oracle)',
         're.I = ASCII case folding on the generated alphabets; the four non-ASCII letters that CPython folds onto '
-        'ASCII (U+0130 U+0131 U+017F U+212A) are an implementation-only stream (known finding C13-unicode-regex-classes)',
+        'ASCII in Unicode mode (U+0130 U+0131 U+017F U+212A) and non-ASCII digits are an implementation-only stream '
+        '(the patterns are compiled with re.ASCII since the fix; such values must be invalid)',
         'Property.value never ends in a line feed (checked by the oracle on every generated property)',
     )
     rule = ('acc: every (profile, property) pattern x values sampled from its own Re AST, from other patterns, and '
@@ -775,7 +776,7 @@ class C13(Check):
             viols.append(('a sheet is valid iff all its declarations are', {'css': css},
                           {'sheet.valid': bool(sv), 'all declarations valid': allvalid,
                            'invalid': [(p.name, p.value) for (_, p, _), v in zip(props, pv) if not v]},
-                          self.conj_region(s, props, pv, sv)))
+                          None))
         return lines, exp, cases, viols
 
     def shrink_sheet(self, css, clause):
@@ -832,26 +833,6 @@ class C13(Check):
                             break
                 ctx.violate(clause, witness, detail, known=known)
         self.compare(ctx, 'sheet.valid / rule.valid / Property.valid', lines, exp)
-
-    def conj_region(self, s, props, pv, sv):
-        """region predicates of the two conjunction findings: they explain ONLY `sheet.valid is True` while a
-        declaration is invalid, and only if every top-level rule that has `valid` is valid by the coded meaning
-        (all effective entries of style rules valid; @font-face: all entries + descriptors)."""
-        if not sv:
-            return None
-        shadow = any((not v) and (not eff) and path == ('STYLE_RULE',) for (path, p, eff), v in zip(props, pv))
-        nested = any((not v) and (path[0] in ('MEDIA_RULE', 'PAGE_RULE')) for (path, p, eff), v in zip(props, pv))
-        # anything else invalid at top level (effective entry of a style rule, any entry of @font-face) would have
-        # made sheet.valid False by the coded meaning -> not explained by the findings
-        other = any((not v) and ((eff and path == ('STYLE_RULE',)) or path == ('FONT_FACE_RULE',))
-                    for (path, p, eff), v in zip(props, pv))
-        if other:
-            return None
-        if nested:
-            return 'C13-valid-skips-media-page'
-        if shadow:
-            return 'C13-valid-effective-only'
-        return None
 
     # -- oracle: spelling, round trip, creation paths ------------------------------------------------
     def prop_obs(self, p):
@@ -1161,16 +1142,12 @@ class C13(Check):
         f = self.fold(' '.join(value_src.split()))
         if name == 'display' and f == 'run-in' and not expected:
             return 'C13-display-run-in'
-        if name in ('min-width', 'min-height') and f == 'none' and not expected:
-            return 'C13-min-size-none'
         if expected and re.fullmatch(r'\+[0-9.]+(%|[a-z]+)?', f):
             return 'C13-plus-sign'
         if expected and re.fullmatch(r'rgb\(.*\)', f) and '+' in f:
             return 'C13-plus-sign'
         if expected and f in [self.fold(c) for c in CSS21_SYSTEM_COLORS]:
             return 'C13-system-colors'
-        if expected and re.fullmatch(r'url\(\s*(""|\'\')?\s*\)', f):
-            return 'C13-empty-uri'
         return None
 
     def oracle_grammar(self, ctx):
@@ -1422,9 +1399,7 @@ class C13(Check):
 
     @staticmethod
     def unicode_region(v):
-        import unicodedata
-        if any(c in FOLD_SPECIAL or (ord(c) > 127 and unicodedata.category(c) == 'Nd') for c in v):
-            return 'C13-unicode-regex-classes'
+        """(the finding C13-unicode-regex-classes is fixed: the patterns are compiled with re.ASCII)"""
         return None
 
     # ------------------------------------------------------------------------------------------
